@@ -343,9 +343,14 @@ def chain_roles(prog: Program) -> Tuple[FuncInfo, FuncInfo, int, int]:
     in the tuple returned by the per-run driver — roles derived from what sets each flag."""
     driver = prog.method("pymarkdown.file_scan_helper.FileScanHelper", "process_files_to_scan")
     rets = returns_of(driver)
-    if len(rets) != 1 or not isinstance(rets[0], ast.Tuple) or len(rets[0].elts) != 2:
-        raise AnalysisError("process_files_to_scan no longer returns one 2-tuple of flags")
-    names = [elt.id if isinstance(elt, ast.Name) else None for elt in rets[0].elts]
+    if not rets or any(not isinstance(r, ast.Tuple) or len(r.elts) != 2 for r in rets):
+        raise AnalysisError("process_files_to_scan no longer returns 2-tuples of flags")
+    # the return that hands back the flags accumulated over the files (other returns - the single stdin document - give
+    # the pair directly)
+    accumulated = [r for r in rets if all(isinstance(e, ast.Name) for e in r.elts)]
+    if len(accumulated) != 1:
+        raise AnalysisError("process_files_to_scan: the return of the two accumulated flags was not found")
+    names = [elt.id if isinstance(elt, ast.Name) else None for elt in accumulated[0].elts]
     fixed_index = failed_index = None
     # roles by how each flag is raised: the failure flag is set when a per-file status is False (a negative
     # guard on a value that comes back from a call), the fixed flag when a per-file value is True
